@@ -27,7 +27,7 @@ PARTS = ['names', 'languages', 'attributes', 'attrgroups', 'groups', 'simpletype
 
 
 def plan(tier, seed):
-    return [{'part': p, 'cost': 1} for p in PARTS]
+    return [{'part': p, 'cost': 1, 'fresh_process': p.startswith('enum-effective')} for p in PARTS]
 
 
 def _v(part, name, kind, detail=None, extra=None):
